@@ -43,39 +43,46 @@ theorem lt_of_not_exactIn (p n : Nat) (hp : 1 ≤ p) (h : exactIn p n = false) :
   rw [exactIn_of_le p n hp hle] at h
   exact Bool.noConfusion h
 
-/-- the threshold test of `in_units` / `convert_to_units` with threshold `2^p + 1` fires on every
-    integer that does not fit a `p`-bit significand, except `±(2^p + 1)` itself -/
-theorem largeWarns_of_inexact (P : DtypeRules) (s p : Nat) (hp : 1 ≤ p)
+/-- `np.abs` only differs from the absolute value at the most negative integer, a power of two,
+    which every significand holds -/
+theorem npAbs_of_inexact (p : Nat) (hp : 1 ≤ p) (d : Dtype) (v : Int)
+    (h1 : exactIn p v.natAbs = false) : npAbs d v = Int.ofNat v.natAbs := by
+  unfold npAbs
+  split
+  · rename_i hc
+    exfalso
+    have hv : v.natAbs = 2 ^ (8 * d.size - 1) := by
+      rw [hc.2, Int.natAbs_neg]
+      exact Int.natAbs_pow 2 _ ▸ rfl
+    rw [hv, exactIn_two_pow _ _ hp] at h1
+    exact Bool.noConfusion h1
+  · rfl
+
+/-- the inclusive threshold test (`np.abs(v) >= 2^p + 1`) fires on **every** integer that does not
+    fit a `p`-bit significand -/
+theorem largeWarns_of_inexact (P : DtypeRules) (s p : Nat) (hp : 1 ≤ p) (hs : P.largeStrict = false)
     (hL : P.largeInput.lookup s = some (2 ^ p + 1)) (d : Dtype) (v : Int)
-    (h1 : exactIn p v.natAbs = false) (h2 : v.natAbs ≠ 2 ^ p + 1) :
+    (h1 : exactIn p v.natAbs = false) :
     largeWarns P s d [v] = true := by
   have hgt : 2 ^ p < v.natAbs := lt_of_not_exactIn p _ hp h1
-  have habs : npAbs d v = Int.ofNat v.natAbs := by
-    unfold npAbs
-    split
-    · rename_i hc
-      exfalso
-      have hv : v.natAbs = 2 ^ (8 * d.size - 1) := by
-        rw [hc.2, Int.natAbs_neg]
-        exact Int.natAbs_pow 2 _ ▸ rfl
-      rw [hv, exactIn_two_pow _ _ hp] at h1
-      exact Bool.noConfusion h1
-    · rfl
+  have habs := npAbs_of_inexact p hp d v h1
   unfold largeWarns
   rw [hL]
-  simp only [List.any_cons, List.any_nil, Bool.or_false, habs]
+  simp only [List.any_cons, List.any_nil, Bool.or_false, habs, hs]
   have hne : (2 ^ p + 1 != 0) = true := by simp
-  have hlt : 2 ^ p + 1 < v.natAbs := by omega
-  have hlt' : Int.ofNat v.natAbs > Int.ofNat (2 ^ p + 1) := Int.ofNat_lt.2 hlt
-  simp only [hne, Bool.true_and, decide_eq_true_eq]
-  exact hlt'
+  have hle : 2 ^ p + 1 ≤ v.natAbs := hgt
+  have hle' : Int.ofNat v.natAbs ≥ Int.ofNat (2 ^ p + 1) := Int.ofNat_le.2 hle
+  simp only [hne, Bool.true_and, Bool.false_eq_true, if_false, decide_eq_true_eq]
+  exact hle'
 
-/-- no spurious warning: the threshold test fires only above `2^p + 1` -/
-theorem gt_of_largeWarns (P : DtypeRules) (s L : Nat) (hL : P.largeInput.lookup s = some L)
-    (d : Dtype) (v : Int) (h : largeWarns P s d [v] = true) : L < v.natAbs := by
+/-- no spurious warning: the inclusive test fires only for magnitudes from the threshold on -/
+theorem ge_of_largeWarns (P : DtypeRules) (s L : Nat) (hs : P.largeStrict = false)
+    (hL : P.largeInput.lookup s = some L)
+    (d : Dtype) (v : Int) (h : largeWarns P s d [v] = true) : L ≤ v.natAbs := by
   unfold largeWarns at h
   rw [hL] at h
-  simp only [List.any_cons, List.any_nil, Bool.or_false, Bool.and_eq_true, decide_eq_true_eq] at h
+  simp only [List.any_cons, List.any_nil, Bool.or_false, Bool.and_eq_true, hs, Bool.false_eq_true,
+    if_false, decide_eq_true_eq] at h
   have h2 := h.2
   unfold npAbs at h2
   split at h2
@@ -85,6 +92,6 @@ theorem gt_of_largeWarns (P : DtypeRules) (s L : Nat) (hL : P.largeInput.lookup 
     have : (0 : Int) ≤ Int.ofNat L := Int.natCast_nonneg L
     have : (0 : Int) < (2 : Int) ^ (8 * d.size - 1) := Int.pow_pos (by omega)
     omega
-  · exact Int.ofNat_lt.1 h2
+  · exact Int.ofNat_le.1 h2
 
 end Unyt.C17L
